@@ -338,6 +338,8 @@ def r5_status_plumbing(ctx, rep, R='C02.R5'):
         a = ex[0].args[0]
         if isinstance(a, ast.Call) and dotted(a.func) in ('int', 'bool') and a.args:
             a = a.args[0]
+        if isinstance(a, ast.Call) and call_name(a) == 'run_internal':
+            ok = True                 # the call written directly into the exit status
         if isinstance(a, ast.Name):
             for x in ast.walk(rn.node):
                 if isinstance(x, ast.Assign) and is_name(x.targets[0], a.id) and \
